@@ -34,6 +34,10 @@ def mk_monitor(meta):
         out = []
         for i, exp in meta.items():
             res = impl[i]
+            if exp == "par":
+                if res != "par-mismatch=0":
+                    out.append((i, "answer-depends-on-concurrent-logins", f"`{ops[i]}` -> {res}: asked by 16 set-up workers at once, the store answered differently than when asked alone"))
+                continue
             if res.startswith("panic") or res in ("<no-output>", "loaderr", "nohandler"):
                 out.append((i, "panic", f"`{ops[i][:60]}` -> {res}"))
                 continue
@@ -52,7 +56,7 @@ def mk_monitor(meta):
 CRC_TWINS = {"plumless": "buckeroo", "buckeroo": "plumless"}
 
 
-def table_case(ops, meta, entries):
+def table_case(ops, meta, entries, par=0):
     """entries: list of (user, pw, mount-or-None)"""
     ops.append("file " + " ".join(line(*e) for e in entries))
     meta[len(ops) - 1] = "load"
@@ -76,6 +80,9 @@ def table_case(ops, meta, entries):
         ops.append(f"auth {tok(u)} {tok(p)}")
         exp = {(m if m else "_default") for (eu, ep, m) in entries if eu == u and ep == p}
         meta[len(ops) - 1] = exp or None
+    if par:
+        ops.append(f"par {par}")
+        meta[len(ops) - 1] = "par"
 
 
 def add_e2e_suite(c, samples):
@@ -145,7 +152,7 @@ def add_e2e_suite(c, samples):
 
 
 def main(tier=None):
-    c = Check("C16", ["Wasp.Properties.C16", "Wasp.Properties.C16Lit"], tier)
+    c = Check("C16", ["Wasp.Properties.C16", "Wasp.Properties.C16Lit", "Wasp.Properties.Facts.C16"], tier)
     c.build()
     rng = c.rng
     samples = []
@@ -173,6 +180,11 @@ def main(tier=None):
         cases += 1
     table_case(ops, meta, [("eve", "plumless", "m1"), ("plumless", "pw1", None), ("bob", "buckeroo", "")])
     cases += 1
+    # the 20 set-up workers share the store: concurrent logins get the answers sequential logins get
+    for _ in range(3 if c.tier == "quick" else 30):
+        us = rng.sample(USERS, rng.randint(2, 6))
+        table_case(ops, meta, [(u, "pw" + u, rng.choice([None, "", "m1", "tenant" + u[0]])) for u in us], par=20 if c.tier == "quick" else 200)
+        cases += 1
     loads = {i for i, v in meta.items() if v == "load"}
     meta2 = {i: v for i, v in meta.items() if i not in loads}
     mon = mk_monitor(meta2)
